@@ -279,6 +279,9 @@ package main
 //@ ghost envShared string
 //@ ghost parent map[string]string
 //@ ghost wroteOutsideOwned bool
+//@ ghost tempMade bool
+//@ ghost tempDir string
+//@ ghost removed map[string]bool
 
 //@ hookset fs
 //@ hook after os.MkdirTemp(dir, pattern) (name, err)
@@ -298,6 +301,10 @@ package main
 //@   if k == "GARBLE_SHARED" { assume(v == envShared) }
 //@ hook before os.RemoveAll(p)
 //@   assert("removes-only-what-this-process-owns", p == "" || may[p] || marker[filepath.Join(p, ".garble-debugdir")])
+//@   removed[p] = true
+//@ hook after mvdan.cc/garble.saveSharedCache() (dir, err)
+//@   if err == nil { tempMade = true }
+//@   if err == nil { tempDir = dir }
 //@ hook before os.Remove(p)
 //@   assert("removes-only-what-this-process-owns", may[p])
 //@ hook before os.MkdirAll(p, perm)
@@ -350,8 +357,10 @@ package main
 //@   requires !anySelected
 //@   spec goflags.smt2
 //@   maxpaths 4000
-//@   assigns *, ghost may, ghost marker, ghost envShared, ghost parent
+//@   assigns *, ghost may, ghost marker, ghost envShared, ghost parent, ghost tempMade, ghost tempDir, ghost removed
 //@   ensures @env-names-only-an-owned-dir: envShared == "" || may[envShared]
+//@   ensures @temp-dir-is-always-handed-to-the-cleanup: tempMade && !old(tempMade) ==> envShared == tempDir
+//@   ensures @at-most-one-temp-dir: !tempMade ==> envShared == ""
 //@ end
 
 //@ ghost linkPatched bool
@@ -374,20 +383,7 @@ package main
 //@   requires !lockHeld && !everLocked && unlocks == 0 && !built && !stamped && !linkPatched && !anySelected
 //@   ensures @lock-released-once-after-the-link: linkPatched ==> !lockHeld && unlocks == 1
 //@   ensures @no-lock-leak: !lockHeld
-//@ end
-
-//@ func commandReverse
-//@   property C19
-//@   hooks fs
-//@   maxpaths 4000
-//@   skip safety call-requires
-//@ end
-
-//@ func commandMap
-//@   property C19
-//@   hooks fs
-//@   maxpaths 4000
-//@   skip safety call-requires
+//@   ensures @temp-dir-removed-on-every-exit: [C19] tempMade && !old(tempMade) ==> removed[tempDir]
 //@ end
 
 //@ func (*transformer).writeSourceFile
@@ -561,9 +557,10 @@ package main
 //@ end
 
 //@ func commandReverse
-//@   property C04 C13
+//@   property C04 C13 C19
 //@   spec paths.smt2
-//@   hooks revstream revkey
+//@   hooks revstream revkey fs
+//@   maxpaths 4000
 //@   skip safety
 //@   requires !anySelected
 //@   unclaimed hashWithPackage/requires because the names come from go list output and from parsed declarations; that those are non-empty is an invariant of go/parser and cmd/go, not of this function
@@ -572,6 +569,7 @@ package main
 //@   case_calls *ast.TypeSpec: addHashedWithPackage
 //@   case_calls *ast.Field: ObjectOf, IsField, Origin, hashWithStruct, append, panic
 //@   case_calls *ast.ValueSpec: addHashedWithPackage
+//@   ensures @temp-dir-removed-on-every-exit: [C19] tempMade && !old(tempMade) ==> removed[tempDir]
 //@   ensures @exit-status-tells-whether-anything-was-replaced: r0 == nil && !old(rcChanged) ==> rcChanged
 //@   loop 6
 //@     invariant rcChanged == (entry(rcChanged) || anyModified)
@@ -750,10 +748,71 @@ package main
 //@ end
 
 //@ func commandMap
-//@   property C13
-//@   hooks mapnames parse
+//@   property C13 C19
+//@   hooks mapnames parse fs
+//@   maxpaths 4000
 //@   requires !anySelected
 //@   skip safety
 //@   unclaimed obfuscatedObjectName/requires because the transformer and its package are non-nil whenever transformerForListedPackage reports no error; the remaining precondition is about go/types
 //@   unclaimed obfuscatedImportPath/requires because import paths of listed packages are non-empty by construction of go list
+//@   ensures @temp-dir-removed-on-every-exit: [C19] tempMade && !old(tempMade) ==> removed[tempDir]
+//@ end
+
+// ---- C08: what reflection detection records, and under which name ----
+
+//@ ghost lastGot *listedPackage
+//@ ghost lastGotOK bool
+
+//@ hookset reflnames
+//@ hook after (*mvdan.cc/garble.listedPackages).get(l, path) (lp, ok)
+//@   lastGot = lp
+//@   lastGotOK = ok
+//@ end
+
+//@ func (*reflectInspector).obfuscatedObjectName
+//@   property C08
+//@   hooks reflnames
+//@   requires ri != nil
+//@   skip safety
+//@   unclaimed hashWithPackage/requires because object names from go/types are never empty and listed packages are non-nil when found
+//@   unclaimed hashWithStruct/requires because the field comes from go/types and the content ID from the shared cache
+//@   may_panic when true
+//@   assigns sumBuffer, b64NameBuffer, listedPackages.entries, ghost wr, ghost lastGot, ghost lastGotOK
+//@   ensures @universe-objects-are-never-recorded: isnil(obj.Pkg()) ==> r0 == ""
+//@   ensures @fields-are-named-as-the-build-names-them: !isnil(obj.Pkg()) && dyntypeis(obj, *types.Var) && parent != nil ==> r0 == old(hashWithStruct(parent, obj.(*types.Var)))
+//@   ensures @own-objects-use-the-package-being-compiled: !isnil(obj.Pkg()) && !(dyntypeis(obj, *types.Var) && parent != nil) && obj.Pkg() == ri.pkg ==> r0 == old(hashWithPackage(ri.lpkg, obj.Name()))
+//@   ensures @foreign-objects-use-their-declaring-package: !isnil(obj.Pkg()) && !(dyntypeis(obj, *types.Var) && parent != nil) && obj.Pkg() != ri.pkg ==> r0 == old(hashWithPackage(now(lastGot), obj.Name()))
+//@ end
+
+//@ ghost lastObf string
+
+//@ hookset reflnames
+//@ hook after (*mvdan.cc/garble.reflectInspector).obfuscatedObjectName(r, o, parent) (name)
+//@   lastObf = name
+//@ end
+
+//@ func (*reflectInspector).recordUsedForReflect
+//@   property C08
+//@   hooks reflnames
+//@   requires ri != nil
+//@   skip safety
+//@   may_panic when true
+//@   ensures @original-name-recorded-under-the-obfuscated-name: lastObf != "" ==> has(ri.result.ReflectObjectNames, lastObf) && ri.result.ReflectObjectNames[lastObf] == obj.Name()
+//@ end
+
+//@ func (*reflectInspector).recursivelyRecordUsedForReflectImpl
+//@   property C08
+//@   trusted recursion over go/types graphs with a visited set; only the coverage of its type switch is an obligation here
+//@   case_calls *types.Alias: Rhs, recursivelyRecordUsedForReflectImpl
+//@   case_calls *types.Named: !TypeArgs, Obj, Pkg, usedForReflect, recordUsedForReflect, Origin, Underlying, Len, At, recursivelyRecordUsedForReflectImpl
+//@   case_calls *types.Struct: NumFields, Field, Pkg, Origin, Type, recordUsedForReflect, recursivelyRecordUsedForReflectImpl
+//@   case_calls *types.Map: !Key, !Elem, recursivelyRecordUsedForReflectImpl
+//@   case_calls *types.Signature: !Params, !Results, recursivelyRecordUsedForReflectImpl
+//@   case_calls *types.Tuple: Len, At, Type, recursivelyRecordUsedForReflectImpl
+//@ end
+
+//@ func (*reflectInspector).recordArgReflected
+//@   property C08
+//@   trusted recursion over the SSA value graph with a visited set; only the coverage of its value switch is an obligation here
+//@   case_calls *ssa.Call: Type, recursivelyRecordUsedForReflect
 //@ end
